@@ -20,7 +20,7 @@ from pyvc.th_lists import Lists, Val, VAL, fresh_list, V, as_list_sv
 from pyvc.th_tables import Tables, Key, KEY, fresh_table, wf, no_columns, nrows, column, same_table, key_of
 from pyvc.sv import SV, I, B, S, T, NONE, fresh_name, fresh_int
 from pyvc.th_tables2 import (Rows, Init, Concat, CNT, cnt_def, count_lemmas, fresh_rowlist, rows_of, mask_list, rowmap, fresh_colmap, as_table, CLS,
-                              equally_long, same_columns, records_contract, empty_with_columns_contract)
+                              equally_long, same_columns, records_contract, empty_with_columns_contract, mask_contract, MASK_CLAUSES)
 
 PROP = 'C01'
 REPLAY_MODULE = 'rac.C01_ded'
@@ -187,11 +187,8 @@ def mask_obligations(ctx, m):
         o = out.val
         if o.kind != 'table':
             raise OutOfSubset('mask selection does not return a table')
-        total = CNT(marr, M)
-        ctx.post('__getitem__.mask.keeps_all_columns', hy, ForAll([c], o.dom[c] == t.dom[c]))
-        ctx.post('__getitem__.mask.rectangular_with_one_row_per_true_entry', hy, wf(o, total))
-        ctx.post('__getitem__.mask.row_of_a_true_entry_is_kept_at_its_rank', hy,
-                 ForAll([i, c], Implies(And(0 <= i, i < M, marr[i] != 0, t.dom[c]), And(0 <= CNT(marr, i), CNT(marr, i) < total, o.carr[c][CNT(marr, i)] == t.carr[c][i]))))
+        for cname, goal in zip(MASK_CLAUSES, mask_contract(t, n, marr, o)):        # the contract callers (C06: inc / exc) rely on, clause by clause
+            ctx.post('__getitem__.mask.' + cname, hy, goal)
     if nret == 0:
         raise OutOfSubset('mask selection has no returning path')
     count_lemmas(ctx, '__getitem__.mask')
